@@ -155,6 +155,11 @@ def renderings(case):
             v2_lines.append(line)
         else:
             v2_lines.append(v3_lines[-1])
+        if st_.get("paren_break"):
+            # the opening parenthesis on a line of its own (after a comment), in both files alike: they stay line-aligned
+            brk = {1: "\n(", 2: "  # arguments follow\n    ("}[st_["paren_break"]]
+            v2_lines[-1] = v2_lines[-1].replace("(", brk, 1)
+            v3_lines[-1] = v3_lines[-1].replace("(", brk, 1)
     return "\n".join(v2_lines) + "\n", "\n".join(v3_lines) + "\n", names
 
 
@@ -197,6 +202,12 @@ def check_model(case, rec):
         if len(names) >= 3 and (omitted or outfile or mixed):
             rec.nontrivial_case(case)
             rec.label("nontrivial", sample={"v2": v2_text} if len(v2_text) < 600 else None)
+        # the two files are written line for line alike: every command sits on the same line in both
+        for n in names:
+            if n in p2.commands and n in p3.commands and p2.commands[n].lineno != p3.commands[n].lineno:
+                return [Failure("v2_differs:command_line|%s" % V2_OF.get(type(p3.commands[n]).__name__, "?"),
+                                "%s: line %r in the EEMS 2.0 file, %r in the MPilot file\nEEMS 2.0:\n%s\nMPilot:\n%s" % (
+                                    n, p2.commands[n].lineno, p3.commands[n].lineno, v2_text, v3_text))]
         diff = c15.compare_programs(p3, p2)
         if diff:
             kind, cn, an = diff
@@ -233,7 +244,7 @@ def model_cases(draw):
         "v2": st.sampled_from([True, True, True, not mixed or False]) if mixed else st.just(True),
         "omit_new_field": st.booleans(), "out_file": st.sampled_from([False, False, True]),
         "pos": st.one_of(st.none(), st.lists(st.integers(0, 6), min_size=2, max_size=2)),
-        "assigned": st.sampled_from([False, False, True])}), min_size=3, max_size=10))
+        "assigned": st.sampled_from([False, False, True]), "paren_break": st.sampled_from([0, 0, 0, 1, 2])}), min_size=3, max_size=10))
     if draw(st.integers(0, 3)) == 0:
         for s_ in styles:  # a file in which no command is written bare
             s_["assigned"] = True
